@@ -70,6 +70,13 @@ func (t Templates) ServeHTTP(w http.ResponseWriter, r *http.Request) (int, error
 		// pass request up the chain to let another middleware provide us the template
 		code, err := t.Next.ServeHTTP(rb, r)
 		if !rb.Buffered() || code >= 300 || err != nil {
+			if rb.Buffered() && code == 0 && rb.Buffer.Len() > 0 {
+				// the handler wrote its response (status 0) and only reports an
+				// error: the buffered response must still reach the client, as is
+				rb.CopyHeader()
+				rb.StatusCodeWriter(w).WriteHeader(http.StatusOK)
+				w.Write(rb.Buffer.Bytes())
+			}
 			return code, err
 		}
 
